@@ -34,7 +34,7 @@ class RouteMethod:
     def __repr__(self):
         return '<{}:{} {}>'.format(self.route.rule, self.name, self.handler)
 
-    def __call__(self, *a, **kw):
+    def __call__(self, /, *a, **kw):     # positional-only: a wildcard may be named `self`
         return self.handler(*a, **kw)
 
 
@@ -63,7 +63,7 @@ class Route:
         self.pattern_out = pattern_out
         self.filters_out = filters_out
 
-    def url(self, *args, **kw):
+    def url(self, /, *args, **kw):       # positional-only: a wildcard may be named `self`
 
         params = self.params
         if not params:
@@ -170,7 +170,7 @@ class Route:
     def params_signature(self):
         return {name: [False, filter] for name, filter in zip(self.params, self.filters)}
 
-    def __call__(self, method, *a, **kw):
+    def __call__(self, method, /, *a, **kw):     # positional-only: wildcards may be named `self` or `method`
         return self[method](*a, **kw)
 
     def __repr__(self):
